@@ -45,6 +45,7 @@ func genC20(o *vcoq.Out, r *vcoq.Rand, tier string) error {
 	g.meterMask()
 	g.stockMask()
 	g.pubStore()
+	g.pulls()
 	return nil
 }
 
